@@ -1527,7 +1527,10 @@ def prog_model_expr(case):
                                    g_list([g_goal(g) for g in c['body']])) for c in case['clauses']]
     qs = ['(%s, %s, %s)' % (g_str(n), g_list([g_term(a) for a in args]), g_nat(nq)) for n, args, nq in case['queries']]
     reads = ['(%s, %s)' % (g_str(n), g_nat(ar)) for n, ar in case['reads']]
-    return '(run_prog 200 80 %d %s %s %s)' % (PROG_MODEL_WORK, g_list(cls), g_list(qs), g_list(reads))
+    # programs with meta-calls (call/N, once/1, findall/3) run on the extended machine DbProgMeta.msolve, in which a goal
+    # name(args) is YP.query literally (facts, then the program's clauses or the registered builtin of that name)
+    run = 'run_prog_meta' if case.get('meta') else 'run_prog'
+    return '(%s 200 80 %d %s %s %s)' % (run, PROG_MODEL_WORK, g_list(cls), g_list(qs), g_list(reads))
 
 PROG_MODEL_WORK = 3000      # search activations the model may perform in one case (more: 'stuck', no comparison)
 PROG_ASSERT_CAP = 3500      # > PROG_MODEL_WORK (an assert is an activation): a run the model completes stays below
@@ -1859,6 +1862,106 @@ def gen_dbprog(rng, loopy=0.6, ctrl=0.5):
         case['api_nil'] = rng.choice(['atom', 'ATOM_NIL', 'makelist'])
     return case
 
+def goal_as_term(g):
+    """the term that, called, is the goal g (database goals and calls only)"""
+    k = g[0]
+    if k == 'as':
+        return ['f', 'asserta' if g[1] else 'assertz', [g[2]]]
+    if k == 're':
+        return ['f', 'retract', [g[1]]]
+    if k == 'ra':
+        return ['f', 'retractall', [g[1]]]
+    if k == 'c':
+        return ['f', g[1], g[2]] if g[2] else ['a', g[1]]
+    return None
+
+def meta_wrap(rng, g, fresh, depth=0):
+    """goals that reach the goal g through call/N, once/1 or findall/3 (a list: a goal held in a variable needs G = .. first);
+    fresh() gives a new clause variable"""
+    t = goal_as_term(g)
+    if t is None:
+        return [g]
+    w = rng.random()
+    if w < 0.18:
+        out = [['c', 'call', [t]]]
+    elif w < 0.36:
+        # call/N with the last arguments (or all of them) passed as extra arguments
+        if t[0] == 'f':
+            j = rng.randrange(len(t[2]))
+            if rng.random() < 0.5:
+                j = 0
+            hd = ['f', t[1], t[2][:j]] if j else ['a', t[1]]
+            out = [['c', 'call', [hd] + t[2][j:]]]
+        else:
+            out = [['c', 'call', [t]]]
+    elif w < 0.52:
+        v = fresh()
+        out = [['u', v, t], ['c', rng.choice(['call', 'call', 'once']), [v]]]
+    elif w < 0.68:
+        out = [['c', 'once', [t]]]
+    else:
+        bag = fresh()
+        vs = sorted(terms.term_vars(t))
+        if g[0] in ('c', 're') and vs and rng.random() < 0.8:
+            inner = g[2] if g[0] == 'c' else [g[1]]
+            tmpl = rng.choice([['v', rng.choice(vs)], ['f', 'w', [['v', x] for x in vs]], inner[0] if inner else ['v', vs[0]]])
+        else:
+            tmpl = rng.choice([['a', 'k'], ['v', vs[0]] if vs else ['i', 0]])
+        out = [['c', 'findall', [tmpl, t, bag]]]
+        q = rng.random()
+        if q < 0.55:
+            out.append(['as', rng.random() < 0.2, ['f', 'bag', [bag]]])
+        elif q < 0.7:
+            out.append(['u', bag, ['f', '.', [fresh(), fresh()]]])       # the rest runs only if there was an answer
+    if depth == 0 and rng.random() < 0.2 and out[-1][0] == 'c' and len(out) == 1:
+        # once(call(..)), call(findall(..)), findall(X, once(retract(..)), L), ...
+        return meta_wrap(rng, out[0], fresh, 1)
+    return out
+
+def decorate_meta(rng, case, p=0.6):
+    """a copy of the dbprog case in which a share p of the database goals and calls (in the main and helper clauses, inside
+    the branches of control constructs too) are reached through call/N, once/1, findall/3, also via a goal held in a bound
+    variable; bags of findall are stored under bag/1 so that they are observable; the case is marked 'meta' (model:
+    DbProgMeta)"""
+    import json
+    case = json.loads(json.dumps(case))
+    hit = [0]
+    for c in case['clauses']:
+        if c['name'] == 'init':
+            continue
+        nv = [c['nv']]
+        def fresh():
+            nv[0] += 1
+            return ['v', nv[0] - 1]
+        def dec(gs):
+            out = []
+            for g in gs:
+                if g[0] in ('or', 'if', 'ifthen', 'not'):
+                    out.append([g[0]] + [dec(sub) for sub in g[1:]])
+                elif g[0] in ('as', 're', 'ra', 'c') and g[-1] != 'py' and rng.random() < p:
+                    hit[0] += 1
+                    out.extend(meta_wrap(rng, g, fresh))
+                else:
+                    out.append(g)
+            return out
+        body = dec(c['body'])
+        if nest_depth(body) + len(c['head']) > 15 or code_size(body) > 120:
+            continue
+        c['body'] = body
+        c['nv'] = nv[0]
+    case['meta'] = True
+    case['meta_goals'] = hit[0]
+    if ['bag', 1] not in case['reads']:
+        case['reads'] = case['reads'] + [['bag', 1]]
+    return case
+
+def gen_dbprog_meta(rng, loopy=0.6, ctrl=0.4):
+    for _ in range(20):
+        case = decorate_meta(rng, gen_dbprog(rng, loopy, ctrl))
+        if case['meta_goals']:
+            break
+    return case
+
 def gen_dbprog_grown(rng, loopy=0.6, ctrl=0.3):
     """round 4: a generated program whose init clause (>= 3 asserts) is run 4-8 times before the main clause, so that the
     predicates the main clause enumerates, updates and queries with bound arguments hold about 12-40 facts (one clause body
@@ -1959,4 +2062,42 @@ def dbprog_corpus():
     for cf, nq, an in [(True, None, 'atom'), (True, 'pat', 'ATOM_NIL'), (True, 'fact', 'makelist'), (False, 'pat', 'atom')]:
         c2 = dict(c); c2['clear_first'] = cf; c2['nilq'] = nq; c2['api_nil'] = an
         L.append(c2)
+    # ---- round 6: the database reached through call/N, once/1, findall/3 (model: DbProgMeta)
+    def mcase(clauses, queries, reads):
+        c = case(clauses, queries, reads); c['meta'] = True
+        L.append(c)
+    C = lambda name, *xs: ['c', name, list(xs)]
+    at = lambda n: ['a', n]
+    init2 = ('init', 0, [], [['as', False, f('p', a)], ['as', False, f('p', b)]])
+    # t(L) :- findall(X, retract(p(X)), L).   u :- p(X), call(assertz, p(X)), fail.  u.   v(L) :- G = p(X), findall(X, call(G), L).
+    mcase([init2, ('t', 2, [v(0)], [C('findall', v(1), f('retract', f('p', v(1))), v(0))]),
+           ('u', 1, [], [C('p', v(0)), C('call', at('assertz'), f('p', v(0))), ['fail']]), ('u', 0, [], []),
+           ('v', 3, [v(0)], [['u', v(2), f('p', v(1))], C('findall', v(1), f('call', v(2)), v(0))])],
+          [['init', [], 0], ['u', [], 0], ['v', [v(0)], 1], ['t', [v(0)], 1], ['t', [v(0)], 1]], [['p', 1]])
+    # bump :- once(retract(c(N))), assertz(c(s(N))).   w(X,L) :- p(X), findall(Y, retract(p(Y)), L), assertz(p(X)).
+    # z(X) :- p(X), G = retract(p(X)), call(G), call(assertz, p(f(X))).
+    mcase([('init', 0, [], [['as', False, f('p', a)], ['as', False, f('p', b)], ['as', False, f('c', I(0))], ['as', False, f('c', I(5))]]),
+           ('bump', 1, [], [C('once', f('retract', f('c', v(0)))), ['as', False, f('c', f('s', v(0)))]]),
+           ('w', 3, [v(0), v(1)], [C('p', v(0)), C('findall', v(2), f('retract', f('p', v(2))), v(1)), ['as', False, f('p', v(0))]]),
+           ('z', 2, [v(0)], [C('p', v(0)), ['u', v(1), f('retract', f('p', v(0)))], C('call', v(1)), C('call', at('assertz'), f('p', f('f', v(0))))])],
+          [['init', [], 0], ['bump', [], 0], ['bump', [], 0], ['w', [v(0), v(1)], 2], ['z', [v(0)], 1]], [['p', 1], ['c', 1]])
+    # the goal of findall updates the predicate it enumerates (snapshot inside findall); the bag is stored; a rule as the goal,
+    # with a cut of its own; call/3 on a dynamic predicate; once on a rule that writes before it answers
+    mcase([init2, ('h', 1, [v(0)], [C('p', v(0)), ['as', False, f('p', f('f', v(0)))], cut]), ('h', 1, [z], []),
+           ('m', 3, [v(0)], [C('findall', v(1), f('h', v(1)), v(2)), ['as', False, f('bag', v(2))], C('call', at('p'), v(0)),
+                             C('once', f('h', v(1))), C('call', f('retract', f('p', v(0))))]),
+           ('n', 2, [v(0), v(1)], [C('call', f('r', v(0)), v(1))]),
+           ('k', 3, [], [C('findall', f('w', v(0), v(1)), f('call', at('r'), v(0), v(1)), v(2)), C('call', at('retractall'), f('r', v(0), v(1))),
+                         C('call', f('call', f('assertz', f('bag', v(2)))))])],
+          [['init', [], 0], ['m', [v(0)], 1], ['n', [v(0), v(1)], 2], ['k', [], 0]], [['p', 1], ['bag', 1], ['r', 2]])
+    # facts stored under the names of the builtins are answers of the query, before the builtin runs (YP.query: match_dynamic first)
+    mcase([('m', 2, [v(0)], [['as', False, f('call', f('x', I(1)))], ['as', False, f('once', a)], C('call', f('x', v(0))), C('once', a),
+                             C('call', at('call'), f('x', v(1)))]),
+           ('x', 0, [I(2)], [])],
+          [['m', [v(0)], 1]], [['call', 1], ['once', 1]])
+    # findall / call of an unknown predicate: empty bag resp. failure, nothing raises (a conjunction as a goal TERM is not
+    # expressible in this grammar; a control construct reached through call has no function: no answer)
+    mcase([init2, ('m', 2, [v(0)], [C('findall', v(1), f('nope', v(1)), v(0)), ['as', False, f('bag', v(0))], C('call', at('nope'), v(1))]),
+           ('m', 2, [v(0)], [C('findall', v(1), f('once', f('retract', f('p', v(1)))), v(0))])],
+          [['init', [], 0], ['m', [v(0)], 1]], [['p', 1]])
     return L
